@@ -244,13 +244,26 @@ func execOp(c *Ctx, line string) (out string) {
 		defer func() { sem.MaxInputLength = old }()
 		in := mustHex(f[3])
 		v1, e1 := semParse(f[1], string(in))
-		v2, e2 := semParse(f[1], append([]byte(nil), in...))
+		buf2 := append([]byte(nil), in...)
+		v2, e2 := semParse(f[1], buf2)
 		v3, e3 := semParse(f[1], namedString(in))
-		v4, e4 := semParse(f[1], namedBytes(append([]byte(nil), in...)))
+		buf4 := namedBytes(append([]byte(nil), in...))
+		v4, e4 := semParse(f[1], buf4)
+		// a parsed value must not change when the caller overwrites the input buffer afterwards
+		before2, before4 := semOutcome(v2, e2), semOutcome(v4, e4)
+		// (error values may legitimately keep the caller's slice in ParseError.Input: freeze their texts first)
+		t2, t3, t4 := errText(e2), errText(e3), errText(e4)
+		for i := range buf2 {
+			buf2[i], buf4[i] = 0xAA, 0x55
+		}
+		if semOutcome(v2, e2) != before2 || semOutcome(v4, e4) != before4 {
+			c.Fail("C17.sem.retain", line, "value parsed from []byte changed after the buffer was overwritten: %s -> %s", before2, semOutcome(v2, e2))
+			return "RETAINS-INPUT " + before2
+		}
 		o1 := semOutcome(v1, e1)
-		for i, o := range []string{semOutcome(v2, e2), semOutcome(v3, e3), semOutcome(v4, e4)} {
-			if o != o1 || errText([]error{e2, e3, e4}[i]) != errText(e1) {
-				c.Fail("C17.sem.types", line, "string: %s %q; variant %d: %s %q", o1, errText(e1), i, o, errText([]error{e2, e3, e4}[i]))
+		for i, o := range []string{before2, semOutcome(v3, e3), before4} {
+			if o != o1 || []string{t2, t3, t4}[i] != errText(e1) {
+				c.Fail("C17.sem.types", line, "string: %s %q; variant %d: %s %q", o1, errText(e1), i, o, []string{t2, t3, t4}[i])
 				return "MISMATCH-input-types " + o1 + " / " + o
 			}
 		}
@@ -342,6 +355,19 @@ func execOp(c *Ctx, line string) (out string) {
 			v2, e2 = sem.LatestTag(a, b)
 		default:
 			return "bad-op"
+		}
+		if e2 == nil {
+			keep := semVal(v2)
+			for i := range a {
+				a[i] = 0xAA
+			}
+			for i := range b {
+				b[i] = 0xAA
+			}
+			if semVal(v2) != keep {
+				c.Fail("C17.sem.retain", line, "Latest* result changed after the input buffers were overwritten: %s -> %s", keep, semVal(v2))
+				return "RETAINS-INPUT " + keep
+			}
 		}
 		if v1 != v2 || errText(e1) != errText(e2) {
 			c.Fail("C17.sem.latest.types", line, "%v %q vs %v %q", v1, errText(e1), v2, errText(e2))
